@@ -233,6 +233,186 @@ def subpix_volume(method='sad', ws=3, H=3, W=5, dmin=-1, dmax=1, subpix=2, cap=1
                       assumptions=['C02 sub-pixel: no masks, subpix 2 or 4 (interpolation weights exact in float32)'])
 
 
+def _sqrt_atoms(t):
+    out = []; seen = set()
+
+    def walk(x):
+        if x.get_id() in seen:
+            return
+        seen.add(x.get_id())
+        if z3.is_app(x) and x.decl().name() == 'sqrt_uf':
+            out.append(x)
+        for ch in x.children():
+            walk(ch)
+    walk(t)
+    return out
+
+
+def _valid(EX, claim, ms=20000):
+    from vf.harness.c10 import _valid as v10
+    return v10(EX, claim, ms)
+
+
+def _valid_abstract(claim, ms):
+    """validity with the sqrt atoms replaced by fresh reals and the integer samples by fresh reals (superset of models): pure QF_NRA"""
+    atoms = _sqrt_atoms(claim)
+    sub = [(a_, z3.Real('S_abs_%d' % i)) for i, a_ in enumerate(atoms)]
+    c2 = z3.substitute(claim, *sub) if sub else claim
+    ints = []; seen = set()
+
+    def walk(x):
+        if x.get_id() in seen:
+            return
+        seen.add(x.get_id())
+        if z3.is_app(x) and x.decl().kind() == z3.Z3_OP_TO_REAL:
+            ints.append(x); return
+        for ch in x.children():
+            walk(ch)
+    walk(c2)
+    c3 = z3.substitute(c2, *[(t, z3.Real('D_abs_%d' % i)) for i, t in enumerate(ints)]) if ints else c2
+    if _sqrt_atoms(c3):
+        return False
+    s_ = z3.SolverFor('QF_NRA'); s_.set('timeout', int(ms))
+    s_.add(z3.Not(c3))
+    try:
+        return str(s_.check()) == 'unsat'
+    except z3.Z3Exception:
+        return False
+
+
+def zncc_volume(ws=3, H=3, W=4, dmin=-1, dmax=0, vmax=15, cap=300, block=(), value=False):
+    """C02 for ZNCC, structural part only: shape, disparities, type of measure / maximal cost, NaN exactly where a window leaves an
+    image, a finite number elsewhere.  Exact domain; sqrt is an uninterpreted function with s >= 0, s*s == x."""
+    import xarray as xr
+    from vf import symnp as S, instr
+    from vf.explore import EX, explore
+    from vf.hutil import Collector
+    from vf.harness import mc
+    import pandora.matching_cost.matching_cost as MC, pandora.matching_cost.zncc as ZN, pandora.img_tools as IT
+    mc.install_stubs(S)
+    col = Collector(cap_s=cap, block=list(block))
+    info = {}
+    S.MODE['exact'] = True; S.REALS['div'] = True
+    ds = list(range(dmin, dmax + 1)); hh = ws // 2; n = ws * ws
+    from fractions import Fraction
+    EPS = z3.RealVal(str(Fraction(10 ** (-15))))          # the exact value of the double constant of compute_std_raster
+
+    def h():
+        shapes = {}
+        L, li, _ = mc.make_image(xr, S, EX, 'l', H, W, shapes=shapes, vmax=vmax)
+        R, ri, _ = mc.make_image(xr, S, EX, 'r', H, W, shapes=shapes, vmax=vmax)
+        mc.add_disparity(xr, S, L, H, W, dmin, dmax)
+        col.shapes = shapes
+        ex = {'zncc_volume': True, 'ws': ws, 'H': H, 'W': W, 'dmin': dmin, 'dmax': dmax}
+        try:
+            out = mc.run_chain(S, L, R, 'zncc', ws, upto='masked')
+        except S.Unsupported:
+            raise
+        except Exception as e:      # noqa
+            col.path_exception(e, label='p%d' % len(EX.trace), extra=ex)
+            return
+        cv = out['cv']; o = cv["cost_volume"].data
+        props = [("cost-volume-shape-and-disparities", z3.BoolVal(tuple(o.shape) == (H, W, len(ds)) and list(cv.coords["disp"].data) == ds)),
+                 ("type-of-measure-is-max-and-maximal-cost-1", z3.BoolVal(cv.attrs.get("type_measure") == "max" and cv.attrs.get("cmax") == 1))]
+        lv = lambda r, c: li._a[r, c].t.val
+        rv = lambda r, c: ri._a[r, c].t.val
+        ncomp = 0
+        if tuple(o.shape) == (H, W, len(ds)):
+            for r in range(H):
+                for c in range(W):
+                    for k, d in enumerate(ds):
+                        c2 = c + d
+                        e = S.xlift(o._a[r, c, k])
+                        g = not (r - hh < 0 or r + hh >= H or c - hh < 0 or c + hh >= W or c2 - hh < 0 or c2 + hh >= W)
+                        if not g:
+                            props.append(("nan-where-a-window-leaves-an-image[%d,%d,%d]" % (r, c, d), e.tag == 1)); continue
+                        ncomp += 1
+                        win = [(dr, dc) for dr in range(-hh, hh + 1) for dc in range(-hh, hh + 1)]
+                        sl = z3.Sum([lv(r + dr, c + dc) for dr, dc in win]); sr = z3.Sum([rv(r + dr, c2 + dc) for dr, dc in win])
+                        sll = z3.Sum([lv(r + dr, c + dc) * lv(r + dr, c + dc) for dr, dc in win]); srr = z3.Sum([rv(r + dr, c2 + dc) * rv(r + dr, c2 + dc) for dr, dc in win])
+                        slr = z3.Sum([lv(r + dr, c + dc) * rv(r + dr, c2 + dc) for dr, dc in win])
+                        # The VALUE (E[LR]-E[L]E[R])/(std L std R) is a degree-6 polynomial identity with square-root atoms over 18
+                        # variables: z3 does not decide it within the caps (tried: uninterpreted sqrt with s*s == x, lemma-matched
+                        # arguments, Cauchy-Schwarz lemmas) -> outside the claim.  Decided here: finite wherever computable.
+                        props.append(("zncc-is-a-finite-number-where-computable[%d,%d,%d]" % (r, c, d), e.tag == 0))
+                        if value:
+                            m2l = sll / n; m2r = srr / n
+                            varl = m2l - (sl / n) * (sl / n); varr = m2r - (sr / n) * (sr / n); cov = slr / n - (sl / n) * (sr / n)
+                            varl_c = z3.If(varl < EPS * m2l, 0, varl); varr_c = z3.If(varr < EPS * m2r, 0, varr)
+                            atoms = _sqrt_atoms(e.val)
+                            aL = aR = None
+                            for a_ in atoms:
+                                if aL is None and _valid(EX, a_.arg(0) == varl_c):
+                                    aL = a_
+                                elif aR is None and _valid(EX, a_.arg(0) == varr_c):
+                                    aR = a_
+                            if aL is None:
+                                aL, _ = S.sqrt_uf(varl_c)
+                            if aR is None:
+                                aR, _ = S.sqrt_uf(varr_c)
+                            hyp = z3.And(varl >= 0, varr >= 0, aL >= 0, aL * aL == varl_c, aR >= 0, aR * aR == varr_c)
+                            claim = z3.Implies(hyp, z3.If(z3.Or(varl_c == 0, varr_c == 0), e.val == 0, e.val * aL * aR == cov))
+                            ok = _valid_abstract(claim, cap * 1000)
+                            props.append(("zncc-is-the-normalised-cross-correlation-0-on-zero-variance[%d,%d,%d]" % (r, c, d), z3.BoolVal(True) if ok else claim))
+        # vacuity witness: the path condition (with the square-root axioms) is satisfied by a pinned concrete image pair
+        rng = np.random.RandomState(3)
+        pin = z3.And(*[e_.t.val == int(rng.randint(0, vmax + 1)) for e_ in list(li._a.flat) + list(ri._a.flat)])
+        col.check_path(props, label='p%d' % len(EX.trace), extra=ex, witnesses=[("a-computable-cost-exists-on-a-pinned-image-pair", z3.And(pin, z3.BoolVal(ncomp > 0)))], group=False)
+        info['fn'] = instr.fn_hash(ZN.Zncc.compute_cost_volume, ZN.apply_divide_standard, IT.compute_mean_raster, IT.compute_std_raster, MC.AbstractMatchingCost.point_interval)
+    res, stats = explore(h, max_paths=64)
+    return col.result(stats, functions=info.get('fn', {}),
+                      bounds={'measure': 'zncc', 'window': ws, 'image': [H, W], 'interval': [dmin, dmax], 'radiometry': 'integers in [0, %d]' % vmax, 'masks': 'none', 'subpix': 1},
+                      stubs=['np.sqrt = uninterpreted function with sqrt(x) >= 0 and sqrt(x)^2 == x'],
+                      assumptions=['C02 (zncc): reals-for-floats (float rounding of sums, division and square root outside the claim)'])
+
+
+def replay_zncc(cex):
+    import xarray as xr
+    from pandora import matching_cost
+    from pandora.criteria import validity_mask
+    x = cex['extra']; inp = cex['inputs']
+    H, W, ws, dmin, dmax = x['H'], x['W'], x['ws'], x['dmin'], x['dmax']
+    hh = ws // 2
+    li = np.array(inp['l'], np.float32).reshape(H, W); ri = np.array(inp['r'], np.float32).reshape(H, W)
+
+    def mk(im):
+        d = xr.Dataset({"im": (["row", "col"], im.copy())}, coords={"row": np.arange(H), "col": np.arange(W)})
+        d.attrs = {"valid_pixels": 0, "no_data_mask": 1, "crs": None, "transform": None, "no_data_img": -9999}
+        return d
+    L = mk(li); R = mk(ri)
+    L.coords["band_disp"] = ["min", "max"]
+    L["disparity"] = xr.DataArray(np.array([np.full((H, W), dmin), np.full((H, W), dmax)]), dims=["band_disp", "row", "col"]); L.attrs["disparity_source"] = [dmin, dmax]
+    try:
+        m = matching_cost.AbstractMatchingCost(**{"matching_cost_method": "zncc", "window_size": ws})
+        a = L["disparity"].sel(band_disp="min").data; b = L["disparity"].sel(band_disp="max").data
+        cv = m.allocate_cost_volume(L, (a, b), None); cv = validity_mask(L, R, cv); cv = m.compute_cost_volume(L, R, cv); m.cv_masked(L, R, cv, a, b)
+    except Exception as e:      # noqa
+        return {'violates': True, 'detail': 'zncc chain raised %r' % (e,)}
+    got = cv["cost_volume"].data
+    ds = list(range(dmin, dmax + 1))
+    if got.shape != (H, W, len(ds)):
+        return {'violates': True, 'detail': 'cost volume shape %s' % (got.shape,)}
+    if cv.attrs.get("type_measure") != "max" or cv.attrs.get("cmax") != 1:
+        return {'violates': True, 'detail': 'type of measure %r / cmax %r' % (cv.attrs.get("type_measure"), cv.attrs.get("cmax"))}
+    L64 = li.astype(np.float64); R64 = ri.astype(np.float64)
+    for r in range(H):
+        for c in range(W):
+            for k, d in enumerate(ds):
+                c2 = c + d
+                g = not (r - hh < 0 or r + hh >= H or c - hh < 0 or c + hh >= W or c2 - hh < 0 or c2 + hh >= W)
+                g_ = float(got[r, c, k])
+                if not g:
+                    if g_ == g_:
+                        return {'violates': True, 'detail': 'cost[%d,%d,%d] is %r where a window leaves an image' % (r, c, d, g_)}
+                    continue
+                wl = L64[r - hh:r + hh + 1, c - hh:c + hh + 1]; wr = R64[r - hh:r + hh + 1, c2 - hh:c2 + hh + 1]
+                vl = (wl ** 2).mean() - wl.mean() ** 2; vr = (wr ** 2).mean() - wr.mean() ** 2
+                exp = 0.0 if (vl <= 1e-12 or vr <= 1e-12) else ((wl * wr).mean() - wl.mean() * wr.mean()) / np.sqrt(vl * vr)
+                if g_ != g_ or abs(g_ - exp) > 1e-4:
+                    return {'violates': True, 'detail': 'zncc[%d,%d] at disparity %d is %r, the definition gives %r (left %s, right %s)' % (r, c, d, g_, exp, li.tolist(), ri.tolist())}
+    return {'violates': False, 'detail': 'zncc volume equals the definition (tolerance 1e-4)'}
+
+
 def replay_subpix(cex):
     import xarray as xr
     from fractions import Fraction
@@ -317,6 +497,8 @@ def replay(cex):
     from pandora.criteria import validity_mask
     if cex['extra'].get('subpix_volume'):
         return replay_subpix(cex)
+    if cex['extra'].get('zncc_volume'):
+        return replay_zncc(cex)
     x = cex['extra']; inp = cex['inputs']
     H, W, ws, dmin, dmax, method = x['H'], x['W'], x['ws'], x['dmin'], x['dmax'], x['method']
     bands = x.get('bands'); band = x.get('band'); col0 = x.get('col0', 0)
